@@ -161,7 +161,8 @@ impl Runner {
         let now = Instant::now();
         app.world.resource_mut::<Time>().update_with_instant(now);
         let comp = P { a: fb(w[1]), b: fb(w[2]) };
-        let mut anim = match self.clone_p(w[3]) { Some(t) => Animator::<P>::with_timeline(t), None => Animator::<P>::new() };
+        // without a timeline: `Animator::new()` or `Animator::default()` (documented as the same)
+        let mut anim = match self.clone_p(w[3]) { Some(t) => Animator::<P>::with_timeline(t), None => if q_first_plugin { Animator::<P>::default() } else { Animator::<P>::new() } };
         if w[4] == "0" { anim = anim.as_disabled(); }
         let mut e = app.world.spawn((comp, anim));
         let has_sel = w[5] != "none";
@@ -269,6 +270,14 @@ impl Runner {
                 let sim = self.sim.as_mut().unwrap();
                 let mut c = sim.app.world.get::<P>(sim.entity).unwrap().clone();
                 if let Some(t) = t { t.update(&mut c, 1.0e9); }
+                format!("{} {}", b(c.a), b(c.b))
+            }
+            "evalat" => {
+                // the timeline in `slot` evaluated at a position given in nanoseconds, applied to a copy of the component
+                let t = self.clone_p(w[1]);
+                let sim = self.sim.as_mut().unwrap();
+                let mut c = sim.app.world.get::<P>(sim.entity).unwrap().clone();
+                if let Some(t) = t { t.update(&mut c, Duration::from_nanos(w[2].parse().unwrap()).as_secs_f32()); }
                 format!("{} {}", b(c.a), b(c.b))
             }
             "setpos" => {
@@ -392,6 +401,10 @@ fn generate(seed: u64, n: usize, out: &mut dyn Write) {
         writeln!(out, "bapp {} {} {} {} {} {} {} {} q{}", b(a0), b(b0), tl0, enabled as u8, sel, key, chain, q, variant).unwrap();
         let frames = 6 + r.below(30);
         let mut cur_slot = tl0.clone();
+        // the generator's own idea of the animator position (exact while the animator has not ended): lets the oracle
+        // ask for "the timeline evaluated at the position of one frame ago"
+        let mut gpos: u64 = 0;
+        let mut gen_enabled = enabled;
         // "busy" blocks assign the selector key often, and mostly to the key assigned last (a re-assignment that
         // changes nothing but still takes the selector mutably) — in particular right after the frame that ended
         let busy = with_sel && r.chance(1, 3);
@@ -405,13 +418,18 @@ fn generate(seed: u64, n: usize, out: &mut dyn Write) {
             }
             match r.below(20) {
                 0 if with_sel => { last_key = r.below(4); writeln!(out, "setkey {}", last_key).unwrap() }
-                1 => writeln!(out, "enable {}", r.below(2)).unwrap(),
-                2 => writeln!(out, "breset").unwrap(),
+                1 => { let e = r.below(2); gen_enabled = e == 1; writeln!(out, "enable {}", e).unwrap() }
+                2 => { gpos = 0; writeln!(out, "breset").unwrap() }
                 3 => { let s = 1 + r.below(4); cur_slot = s.to_string(); writeln!(out, "settl {}", s).unwrap() }
                 _ => {}
             }
-            writeln!(out, "frame {}", r.pick(&deltas)).unwrap();
-            if !with_sel && cur_slot != "-" { writeln!(out, "terminal {}", cur_slot).unwrap(); }
+            let delta = r.pick(&deltas);
+            writeln!(out, "frame {}", delta).unwrap();
+            if !with_sel && cur_slot != "-" {
+                writeln!(out, "terminal {}", cur_slot).unwrap();
+                writeln!(out, "evalat {} {}", cur_slot, gpos).unwrap();
+            }
+            if gen_enabled && cur_slot != "-" { gpos = gpos.saturating_add(delta); }
         }
     }
 }
